@@ -138,6 +138,11 @@ func getEnv() (*c01Env, error) {
 		mk("direct-cred", ProxyOpts{DenyDomains: deny, Credentials: []string{c01SiteCred + "@" + e.origin.Addr}})
 		mk("upstream-cred", ProxyOpts{Upstream: "http://" + e.upstream.Addr, DenyDomains: deny, Credentials: []string{c01SiteCred + "@origin.test:8080"}})
 		mk("mitm-cred", ProxyOpts{MITM: true, DenyDomains: deny, Credentials: []string{c01SiteCred + "@" + e.torigin.Addr}})
+		// listeners with bandwidth limits far above anything the laboratory moves: the limiting wrapper is in the path of
+		// every byte, nothing is ever held back
+		mk("direct-rl", ProxyOpts{DenyDomains: deny, ReadLimit: 1 << 30, WriteLimit: 1 << 30})
+		mk("upstream-rl", ProxyOpts{Upstream: "http://" + e.upstream.Addr, DenyDomains: deny, ReadLimit: 1 << 30, WriteLimit: 1 << 30})
+		mk("mitm-rl", ProxyOpts{MITM: true, DenyDomains: deny, ReadLimit: 1 << 30, WriteLimit: 1 << 30})
 		mk("mitm-pac", ProxyOpts{MITM: true, DenyDomains: deny, PAC: `function FindProxyForURL(url, host) { if (url.substring(0, 6) == "https:") return "DIRECT"; return "PROXY 127.0.0.1:1"; }`})
 		env = e
 	})
